@@ -5,12 +5,13 @@
 (***************************************************************************)
 EXTENDS Build, Sequences, Json
 
+CONSTANT Failures    \* "all" | "cc": only the compiler child is ever killed (schedules for that failure mode)
 VARIABLE hist
 GenInit == Init /\ hist = <<>>
 GenNext == \E p \in Procs :
               \/ Step(p) /\ hist' = Append(hist, [proc |-> p, label |-> IF pc[p] = "dead" THEN "orphan" ELSE pc[p], kill |-> FALSE])
-              \/ Crash(p, TRUE) /\ hist' = Append(hist, [proc |-> p, label |-> "crash", kill |-> TRUE])
-              \/ Crash(p, FALSE) /\ hist' = Append(hist, [proc |-> p, label |-> "crash", kill |-> FALSE])
+              \/ Failures = "all" /\ Crash(p, TRUE) /\ hist' = Append(hist, [proc |-> p, label |-> "crash", kill |-> TRUE])
+              \/ Failures = "all" /\ Crash(p, FALSE) /\ hist' = Append(hist, [proc |-> p, label |-> "crash", kill |-> FALSE])
               \/ CcKilled(p) /\ hist' = Append(hist, [proc |-> p, label |-> "cckill", kill |-> TRUE])
 GenSpec == GenInit /\ [][GenNext]_<<vars, hist>>
 Quiescent == (\A p \in Procs : pc[p] \in {"done", "dead", "idle", "failed", "broken"}) /\ ~CompilerRunning
